@@ -5,6 +5,7 @@ import ZCV.Lemmas.Datatypes2Octet
 import ZCV.Lemmas.Datatypes2V6
 import ZCV.Lemmas.Timedelta
 import ZCV.Lemmas.Inet6Text
+import ZCV.Lemmas.DatatypesHost
 /-!
 # C09 — every standard datatype is a total function honouring its documented contract
 
@@ -15,9 +16,10 @@ suffix tables *generated from the source* — computes exactly the documented co
 The second half (from `C09_ipaddrOrHostname_spec` on) covers the remaining stock datatypes: `ipaddr-or-hostname`
 (live pattern with `rx.match` + "consumed everything", then `inet_pton`), `integer` and `float` (grammars of what
 Python's `int`/`float` accept, `DTSpec.IntLit` / `DTSpec.FloatLit`), `string-list` (`DTSpec.Words`), totality of the
-whole stock table and idempotence of the key types.  `locale` and the four `existing-*` datatypes are not modelled
-(see `C09_unmodelled`); nothing is claimed about them here.  `timedelta` has its own model (`DT.timedelta`,
-`ZCV/Model/Timedelta.lean`, not yet wired into `stockVal`) and contract (`DTSpec.IsTimedelta`): section "timedelta".
+whole stock table and idempotence of the key types.  `locale` and the four `existing-*` datatypes are not part of
+`stockVal` (see `C09_unmodelled`); they, and `timedelta`, are in the complete table `Cfg.stockValH` with the host as a
+parameter: last section of this file (`C09_total_all`).  `timedelta` has its own model (`DT.timedelta`,
+`ZCV/Model/Timedelta.lean`) and contract (`DTSpec.IsTimedelta`): section "timedelta".
 The last section replaces the algorithmic definition of "valid IPv6 address" (`DT.pton6`, glibc's `inet_pton`) by the
 declarative RFC 4291 §2.2 text grammar `DTSpec.Inet6Text`.
 -/
@@ -495,5 +497,262 @@ example : DTSpec.Inet6Text "1::2".toList := by
     rintro d (rfl | rfl) <;> exact ⟨by decide, by decide, by decide⟩
   exact Or.inr ⟨["1".toList], ["2".toList], 1, fun g h => hg g (Or.inl (List.mem_singleton.mp h)),
     ⟨["2".toList], fun g h => hg g (Or.inr (List.mem_singleton.mp h)), Or.inl ⟨rfl, rfl⟩⟩, by decide, rfl⟩
+
+end ZCV.Props.C09
+
+/-!
+## The six host-dependent datatypes; the complete table
+
+`existing-directory`, `existing-path`, `existing-file`, `existing-dirpath`, `locale` and `timedelta` call out of the
+library: `os.path.expanduser / isdir / exists`, `locale.setlocale`, the arithmetic of `datetime.timedelta`.  Each such
+call is a field of the parameter `h : Host` (`ZCV/Model/Host.lean`); `os.path.dirname` is pure and modelled exactly.
+The theorems hold for EVERY host; a fact about the host is a hypothesis of the one theorem that needs it.
+`Cfg.stockValH h` is the value-conversion table for all 26 stock names (`Cfg.stockVal` on the twenty it implements).
+-/
+namespace ZCV.Props.C09
+open ZCV
+
+/-- equality of conversion outcomes is decidable (used by the closed examples below only) -/
+local instance c09hDecEqExcept {ε α : Type} [DecidableEq ε] [DecidableEq α] : DecidableEq (Except ε α) := fun a b =>
+  match a, b with
+  | .ok x, .ok y => if h : x = y then isTrue (by rw [h]) else isFalse (fun e => h (by injection e))
+  | .error x, .error y => if h : x = y then isTrue (by rw [h]) else isFalse (fun e => h (by injection e))
+  | .ok _, .error _ => isFalse (fun e => by cases e)
+  | .error _, .ok _ => isFalse (fun e => by cases e)
+
+/-- `os.path.dirname` (POSIX), characterised: empty for a text without a slash; for `d/b` with `b` free of slashes it
+    is `d` without the slashes at its end, or `d/` when `d` is empty or consists of slashes only (the root). -/
+theorem C09_dirname_spec (p : Str) :
+    ('/' ∉ p → DT.dirname p = []) ∧
+    (∀ d b, p = d ++ '/' :: b → '/' ∉ b →
+      DT.dirname p = if d.all (· == '/') then d ++ ['/'] else DT.rstripSlash d) ∧
+    (DT.dirname p = [] ↔ '/' ∉ p) :=
+  ⟨DT.dh_dirname_noslash p, fun d b e hb => by rw [e]; exact DT.dh_dirname_split d b hb, DT.dh_dirname_eq_nil_iff p⟩
+
+/-- …where `rstrip('/')` takes away a run of slashes at the end and nothing else. -/
+theorem C09_dirname_rstrip (d : Str) :
+    ∃ k, d = DT.rstripSlash d ++ List.replicate k '/' ∧ (DT.rstripSlash d).getLast? ≠ some '/' :=
+  DT.dh_rstripSlash_spec d
+
+/-- `existing-directory` returns its argument with the leading `~` expanded exactly when that path is a directory of
+    the host, and raises `ValueError` in every other case. -/
+theorem C09_existingDirectory_spec (h : Host) (s : Str) :
+    (∀ r, DT.existingDirectory h s = .ok r ↔ h.expanduser s = some r ∧ h.isdir r = true) ∧
+    (∀ e, DT.existingDirectory h s = .error e ↔
+      e = .valueError ∧ ¬ ∃ r, h.expanduser s = some r ∧ h.isdir r = true) :=
+  ⟨DT.dh_existingDirectory_ok h s, DT.dh_existingDirectory_err h s⟩
+
+/-- `existing-path`: the same with `os.path.exists`. -/
+theorem C09_existingPath_spec (h : Host) (s : Str) :
+    (∀ r, DT.existingPath h s = .ok r ↔ h.expanduser s = some r ∧ h.exists_ r = true) ∧
+    (∀ e, DT.existingPath h s = .error e ↔
+      e = .valueError ∧ ¬ ∃ r, h.expanduser s = some r ∧ h.exists_ r = true) :=
+  ⟨DT.dh_existingPath_ok h s, DT.dh_existingPath_err h s⟩
+
+/-- `existing-file` AS THE CODE HAS IT: the test is `os.path.exists`, so it is the same function as `existing-path`
+    (the repository's `test_existing_file` pins `convert('.') == '.'`). -/
+theorem C09_existingFile_spec (h : Host) (s : Str) :
+    (∀ r, DT.existingFile h s = .ok r ↔ h.expanduser s = some r ∧ h.exists_ r = true) ∧
+    (∀ e, DT.existingFile h s = .error e ↔
+      e = .valueError ∧ ¬ ∃ r, h.expanduser s = some r ∧ h.exists_ r = true) ∧
+    DT.existingFile h s = DT.existingPath h s :=
+  ⟨DT.dh_existingPath_ok h s, DT.dh_existingPath_err h s, rfl⟩
+
+/-- What the documentation promises for `existing-file` ("validates that a file by the given name exists") holds on
+    the hosts where everything that exists is a regular file — and, on any host whose `isfile` implies `exists`,
+    every file is accepted. -/
+theorem C09_existingFile_partial (h : Host) (s r : Str) :
+    ((∀ p, h.exists_ p = true → h.isfile p = true) →
+      DT.existingFile h s = .ok r → h.expanduser s = some r ∧ h.isfile r = true) ∧
+    ((∀ p, h.isfile p = true → h.exists_ p = true) →
+      h.expanduser s = some r → h.isfile r = true → DT.existingFile h s = .ok r) :=
+  ⟨fun hh he => by
+      obtain ⟨h1, h2⟩ := (DT.dh_existingPath_ok h s r).mp he
+      exact ⟨h1, hh r h2⟩,
+   fun hh h1 h2 => (DT.dh_existingPath_ok h s r).mpr ⟨h1, hh r h2⟩⟩
+
+/-- Without that hypothesis it does not: on the example host the directory `/srv` is accepted as an "existing file". -/
+theorem C09_existingFile_accepts_directory :
+    DT.existingFile DT.dhExHost "/srv".toList = .ok "/srv".toList ∧ DT.dhExHost.isfile "/srv".toList = false ∧
+      DT.dhExHost.isdir "/srv".toList = true := by decide
+
+/-- `existing-dirpath` per the code: the expanded argument is returned when it has no directory component (no slash at
+    all: "relative pathname with no directory component", the empty text included) or when its `dirname` is a
+    directory of the host; `ValueError` otherwise.  The file itself need not exist. -/
+theorem C09_existingDirpath_spec (h : Host) (s : Str) :
+    (∀ r, DT.existingDirpath h s = .ok r ↔
+      h.expanduser s = some r ∧ ('/' ∉ r ∨ h.isdir (DT.dirname r) = true)) ∧
+    (∀ e, DT.existingDirpath h s = .error e ↔
+      e = .valueError ∧ ¬ ∃ r, h.expanduser s = some r ∧ ('/' ∉ r ∨ h.isdir (DT.dirname r) = true)) := by
+  constructor
+  · intro r
+    rw [DT.dh_existingDirpath_ok, DT.dh_dirname_eq_nil_iff]
+  · intro e
+    rw [DT.dh_existingDirpath_err]
+    simp only [DT.dh_dirname_eq_nil_iff]
+
+/-- The documented example, for every host and every path: `/foo/bar` is accepted exactly when `/foo` is an existing
+    directory (`d` not made of slashes only, `b` any last component — also the empty one of `/foo/`). -/
+theorem C09_existingDirpath_example (h : Host) (d b : Str) (hb : '/' ∉ b) (hd : d.all (· == '/') = false)
+    (hx : h.expanduser (d ++ '/' :: b) = some (d ++ '/' :: b)) :
+    DT.existingDirpath h (d ++ '/' :: b) = .ok (d ++ '/' :: b) ↔ h.isdir (DT.rstripSlash d) = true := by
+  rw [DT.dh_existingDirpath_ok, DT.dh_dirname_split d b hb, DT.dirPortion, hd]
+  simp only [Bool.false_eq_true, if_false]
+  constructor
+  · rintro ⟨-, e | e⟩
+    · exact absurd e (DT.dh_rstripSlash_nonempty d hd)
+    · exact e
+  · exact fun e => ⟨hx, Or.inr e⟩
+
+/-- "No conversion is performed": on a host whose `expanduser` leaves a text without a leading `~` alone, whatever
+    one of the four accepts for such a text is the text itself. -/
+theorem C09_existing_no_conversion (h : Host) (s r : Str) (hs : s.head? ≠ some '~')
+    (hx : ∀ p : Str, p.head? ≠ some '~' → h.expanduser p = some p) :
+    (DT.existingDirectory h s = .ok r → r = s) ∧ (DT.existingPath h s = .ok r → r = s) ∧
+    (DT.existingFile h s = .ok r → r = s) ∧ (DT.existingDirpath h s = .ok r → r = s) := by
+  have key : h.expanduser s = some r → r = s := fun e => by
+    rw [hx s hs] at e; exact (Option.some.inj e).symm
+  exact ⟨fun e => key ((DT.dh_existingDirectory_ok h s r).mp e).1, fun e => key ((DT.dh_existingPath_ok h s r).mp e).1,
+    fun e => key ((DT.dh_existingPath_ok h s r).mp e).1, fun e => key ((DT.dh_existingDirpath_ok h s r).mp e).1⟩
+
+/-- On a host where a directory exists (`isdir p → exists p`), what `existing-directory` accepts, `existing-path`
+    accepts with the same result. -/
+theorem C09_existingDirectory_implies_path (h : Host) (hh : ∀ p, h.isdir p = true → h.exists_ p = true) (s r : Str)
+    (he : DT.existingDirectory h s = .ok r) : DT.existingPath h s = .ok r := by
+  obtain ⟨h1, h2⟩ := (DT.dh_existingDirectory_ok h s r).mp he
+  exact (DT.dh_existingPath_ok h s r).mpr ⟨h1, hh r h2⟩
+
+/-- `locale` (the conversion inside the memo) returns its argument exactly when `setlocale(LC_ALL, ·)` accepts it, and
+    raises `ValueError` otherwise. -/
+theorem C09_locale_spec (h : Host) (s : Str) :
+    (∀ r, DT.checkLocale h s = .ok r ↔ r = s ∧ h.localeOk s = true) ∧
+    (∀ e, DT.checkLocale h s = .error e ↔ e = .valueError ∧ h.localeOk s = false) :=
+  ⟨DT.dh_checkLocale_ok h s, DT.dh_checkLocale_err h s⟩
+
+/-- …and the trial leaves the process locale as it was (provided the locale in force is one `setlocale` accepts
+    back), whatever the verdict. -/
+theorem C09_locale_restores (h : Host) (cur s : Str) (hc : h.localeOk cur = true) :
+    DT.checkLocaleSt h cur s = (cur, DT.checkLocale h s) :=
+  DT.dh_checkLocaleSt h cur s hc
+
+/-- `MemoizedConversion` is transparent: for a conversion that is a function, a wrapper object that starts empty
+    answers every call of every call sequence as the conversion itself would, and never remembers anything but
+    successful conversions. -/
+theorem C09_memoized_transparent {α : Type} (conv : Str → DT.R α) (calls : List Str) :
+    (DT.memoRun conv [] calls).2 = calls.map conv ∧
+    ∀ k v, (k, v) ∈ (DT.memoRun conv [] calls).1 → conv k = .ok v :=
+  DT.dh_memoRun conv [] calls (DT.dh_memoOK_nil conv)
+
+/-- The same from any reachable state of the memo (every remembered pair a successful conversion). -/
+theorem C09_memoized_transparent_from {α : Type} (conv : Str → DT.R α) (memo : DT.Memo α) (calls : List Str)
+    (hm : DT.MemoOK conv memo) :
+    (DT.memoRun conv memo calls).2 = calls.map conv ∧ DT.MemoOK conv (DT.memoRun conv memo calls).1 :=
+  DT.dh_memoRun conv memo calls hm
+
+/-- Failures are not cached: a failing call leaves the memo exactly as it was. -/
+theorem C09_memoized_failure_not_cached {α : Type} (conv : Str → DT.R α) (memo : DT.Memo α) (s : Str) (e : ConvErr)
+    (hm : DT.MemoOK conv memo) (hc : conv s = .error e) : DT.memoized conv memo s = (memo, .error e) :=
+  DT.dh_memoized_failure conv memo s e hm hc
+
+/-- Successes are: once a value has been returned for `s`, the next call for `s` returns it again without consulting
+    the conversion — whatever the conversion (the host) would say by then. -/
+theorem C09_memoized_success_cached {α : Type} (conv conv' : Str → DT.R α) (memo : DT.Memo α) (s : Str) (v : α)
+    (hc : (DT.memoized conv memo s).2 = .ok v) :
+    DT.memoized conv' (DT.memoized conv memo s).1 s = ((DT.memoized conv memo s).1, .ok v) :=
+  DT.dh_memoized_hit conv conv' memo s v hc
+
+/-- The complete table is a conservative extension: on the twenty names `stockVal` implements it IS `stockVal`; on the
+    six others it is the host-parameterised model (`locale` through the registry's memo object: `stockValHS` threads
+    the memo and answers as the pure table does). -/
+theorem C09_stockValH_conservative (h : Host) (s : Str) :
+    (∀ dt ∈ DT.dt2Modelled, Cfg.stockValH h dt s = Cfg.stockVal dt s) ∧
+    Cfg.stockValH h "locale".toList s = (DT.checkLocale h s).map .str ∧
+    Cfg.stockValH h "existing-directory".toList s = (DT.existingDirectory h s).map .str ∧
+    Cfg.stockValH h "existing-path".toList s = (DT.existingPath h s).map .str ∧
+    Cfg.stockValH h "existing-file".toList s = (DT.existingFile h s).map .str ∧
+    Cfg.stockValH h "existing-dirpath".toList s = (DT.existingDirpath h s).map .str ∧
+    Cfg.stockValH h "timedelta".toList s = (DT.timedeltaChecked h.tdFits s).map DT.timedeltaToVal ∧
+    (∀ memo dt, DT.MemoOK (fun v => (DT.checkLocale h v).map Val.str) memo →
+      (Cfg.stockValHS h memo dt s).2 = Cfg.stockValH h dt s ∧
+      DT.MemoOK (fun v => (DT.checkLocale h v).map Val.str) (Cfg.stockValHS h memo dt s).1) :=
+  ⟨fun dt hd => DT.dh_stockValH_old h dt hd s, rfl, rfl, rfl, rfl, rfl, rfl,
+   fun memo dt hm => DT.dh_stockValHS h memo dt s hm⟩
+
+/-- **Totality, no name excluded**: for every host, every one of the 26 names of the stock registry and every string,
+    the conversion returns a value or raises `ValueError` — or `TypeError`, and that only for `timedelta` and only
+    when the first word that is not a well-formed part is a float literal followed by a character that is not a unit
+    letter (`DTSpec.IsTimedelta s (.error .typeError)`, spelled out). -/
+theorem C09_total_all (h : Host) (dt : Str) (hd : dt ∈ Gen.stockNames) (s : Str) :
+    (∃ v, Cfg.stockValH h dt s = .ok v) ∨ Cfg.stockValH h dt s = .error .valueError ∨
+    (Cfg.stockValH h dt s = .error .typeError ∧ dt = "timedelta".toList ∧
+      ∃ (good : List DTSpec.TdPart) (lit : Str) (u : Char) (rest : List Str),
+        DTSpec.Words s (good.map DTSpec.tdText ++ (lit ++ [u]) :: rest) ∧ (∀ p ∈ good, DTSpec.TdGood p) ∧
+        DTSpec.FloatLit lit ∧ u ∉ DTSpec.tdUnits) := by
+  rcases DT.dh_stockValH_total h dt hd s with hv | hv | hv
+  · exact Or.inl hv
+  · exact Or.inr (Or.inl hv)
+  · have hdt := DT.dh_typeError_timedelta h dt hd s hv
+    refine Or.inr (Or.inr ⟨hv, hdt, ?_⟩)
+    subst hdt
+    rw [DT.dh_stockValH_timedelta, DT.dh_map_err, DT.dh_timedeltaChecked_typeError] at hv
+    exact (C09_timedelta_unknown_unit_is_TypeError s).mp hv
+
+/-- …and conversely that `TypeError` does occur, for every host, on exactly those texts. -/
+theorem C09_typeError_iff (h : Host) (dt : Str) (hd : dt ∈ Gen.stockNames) (s : Str) :
+    Cfg.stockValH h dt s = .error .typeError ↔
+      dt = "timedelta".toList ∧ DTSpec.IsTimedelta s (.error .typeError) := by
+  constructor
+  · intro hv
+    have hdt := DT.dh_typeError_timedelta h dt hd s hv
+    subst hdt
+    rw [DT.dh_stockValH_timedelta, DT.dh_map_err, DT.dh_timedeltaChecked_typeError] at hv
+    exact ⟨rfl, (C09_timedelta_spec s _).mp hv⟩
+  · rintro ⟨rfl, ht⟩
+    rw [DT.dh_stockValH_timedelta, DT.dh_map_err, DT.dh_timedeltaChecked_typeError]
+    exact (C09_timedelta_spec s _).mpr ht
+
+/-- `C09_total` is the special case of the twenty names. -/
+example (dt : Str) (hm : dt ∈ DT.dt2Modelled) (s : Str) :
+    (∃ v, Cfg.stockVal dt s = .ok v) ∨ Cfg.stockVal dt s = .error .valueError := DT.dt2_stockVal_total dt hm s
+
+/-! non-vacuity: the example host `DT.dhExHost` (directories `/`, `/srv`, `/home/u`; file `/srv/a.conf`; home
+`/home/u`; locales `C`, `POSIX`, empty) -/
+example : Gen.stockNames.length = 26 ∧ ∀ dt ∈ DT.dt2Unmodelled, dt ∈ Gen.stockNames := by decide
+example : DT.dirname "/srv/a.conf".toList = "/srv".toList ∧ DT.dirname "/a".toList = "/".toList ∧
+    DT.dirname "//a".toList = "//".toList ∧ DT.dirname "/a//b".toList = "/a".toList ∧
+    DT.dirname "a".toList = [] ∧ DT.dirname "a/".toList = "a".toList ∧ DT.dirname "".toList = [] := by decide
+example : DT.existingDirectory DT.dhExHost "~".toList = .ok "/home/u".toList := by decide
+example : DT.existingDirectory DT.dhExHost "/srv/a.conf".toList = .error .valueError := by decide
+example : DT.existingPath DT.dhExHost "/srv/a.conf".toList = .ok "/srv/a.conf".toList := by decide
+example : DT.existingPath DT.dhExHost "/srv/dangling".toList = .error .valueError := by decide
+example : DT.existingFile DT.dhExHost "~/x".toList = .error .valueError := by decide
+example : DT.existingDirpath DT.dhExHost "/srv/new.log".toList = .ok "/srv/new.log".toList := by decide
+example : DT.existingDirpath DT.dhExHost "new.log".toList = .ok "new.log".toList := by decide
+example : DT.existingDirpath DT.dhExHost "".toList = .ok [] := by decide
+example : DT.existingDirpath DT.dhExHost "/srv/a.conf/x".toList = .error .valueError := by decide
+example : DT.existingDirpath DT.dhExHost "~/x".toList = .ok "/home/u/x".toList := by decide
+example : DT.checkLocale DT.dhExHost "C".toList = .ok "C".toList := by decide
+example : DT.checkLocale DT.dhExHost "xx_YY".toList = .error .valueError := by decide
+example : DT.checkLocaleSt DT.dhExHost "C".toList "xx_YY".toList = ("C".toList, .error .valueError) := by decide
+example : (DT.memoRun (DT.checkLocale DT.dhExHost) [] ["C".toList, "xx".toList, "C".toList, "xx".toList]) =
+    ([("C".toList, "C".toList)], [.ok "C".toList, .error .valueError, .ok "C".toList, .error .valueError]) := by decide
+example : Cfg.stockValH DT.dhExHost "timedelta".toList "1W".toList = .error .typeError :=
+  (C09_typeError_iff _ _ (by decide) _).mpr ⟨rfl, (C09_timedelta_spec _ _).mp (by decide)⟩
+example : DT.timedeltaChecked DT.dhExHost.tdFits "x".toList = .error .valueError := by decide
+example : DT.timedeltaChecked DT.dhExHost.tdFits "2d 1.5h".toList =
+    .ok { days := some "2".toList, hours := some "1.5".toList } := by decide
+example : DT.timedeltaChecked (fun _ => false) "2d 1.5h".toList = .error .valueError := by decide
+example : Cfg.stockValH DT.dhExHost "existing-dirpath".toList "/srv/x".toList = .ok (.str "/srv/x".toList) := by
+  rw [(C09_stockValH_conservative _ _).2.2.2.2.2.1, show DT.existingDirpath DT.dhExHost "/srv/x".toList = .ok "/srv/x".toList by decide]
+  rfl
+/-- the hypotheses used above are met by the example host (and `exists → isfile` is not) -/
+example : (∀ p, DT.dhExHost.isdir p = true → DT.dhExHost.exists_ p = true) ∧
+    (∀ p, DT.dhExHost.isfile p = true → DT.dhExHost.exists_ p = true) ∧
+    DT.dhExHost.localeOk "C".toList = true := by
+  refine ⟨fun p hp => ?_, fun p hp => ?_, by decide⟩
+  · simp only [DT.dhExHost, Bool.or_eq_true, beq_iff_eq] at hp ⊢
+    rcases hp with (hp | hp) | hp <;> simp [hp]
+  · simp only [DT.dhExHost, Bool.or_eq_true, beq_iff_eq] at hp ⊢
+    simp [hp]
 
 end ZCV.Props.C09
